@@ -33,7 +33,7 @@ class n0dict__(dict):
         if isinstance(xpath, str) and any(char in xpath for char in "/["):
             try:
                 _parent_node, _node_name_index, cur_value, xpath_found_str, not_found_xpath_list = self._find(xpath, self, return_lists)
-            except (ValueError, IndexError, TypeError, SyntaxError) as caught_ex:
+            except (ValueError, IndexError, KeyError, TypeError, SyntaxError) as caught_ex:
                 if raise_exception:
                     raise caught_ex
             else:
